@@ -9,6 +9,7 @@ extractor), all keys and values (any byte strings, including empty, `0x00`, `0xF
 with reopen points anywhere.
 -/
 import SwimVerif.Proofs.Stores
+import SwimVerif.Proofs.StoresHandover
 
 set_option linter.unusedVariables false
 namespace SwimVerif.Store
@@ -141,12 +142,33 @@ theorem C13_inmem_waiter_gets_state (s : InMem.St) (a b p : Nat) (uri : Bytes) (
   simp [InMem.step, ha, InMem.dropLive, hn, aget_adel, hab, hba, hb, InMem.openNode, aget_aset, InMem.dropSender,
     InMem.pollSlot]
 
-/-- Full statement (not proved): for every op sequence the node state of a URI is held in exactly one place and
-changes only by the data ops of its running instance. -/
-def C13_inmem_handover_all_sequences_open : Prop :=
-  ∀ (ops : List Op) (p : Nat) (uri : Bytes) (slot : Nat) (st : InMem.NodeState),
-    aget (InMem.run InMem.init ops).slots slot = some (.live p uri st) →
-    ∀ slot' st', aget (InMem.run InMem.init ops).slots slot' = some (.live p uri st') → slot' = slot
+/-- **Hand-over, every op sequence** (opens, polls, drops — including cancelled pending opens — and data ops over any
+number of handles, URIs and planes): a URI never has two running instances; a state that was handed over and a
+running instance never coexist, at most one pending open owns a handed-over state, and whoever holds a state
+(running instance or pending open) has the plane entry marked in use. -/
+theorem C13_inmem_handover_all_sequences (ops : List Op) :
+    let s := InMem.run InMem.init ops
+    (∀ a b p uri st st', aget s.slots a = some (.live p uri st) → aget s.slots b = some (.live p uri st') → a = b) ∧
+    (∀ a b p uri c st st', aget s.slots a = some (.waiting p uri c) → aget s.chans c = some (.full st) →
+      aget s.slots b ≠ some (.live p uri st')) ∧
+    (∀ a b p uri c c' st st', aget s.slots a = some (.waiting p uri c) → aget s.chans c = some (.full st) →
+      aget s.slots b = some (.waiting p uri c') → aget s.chans c' = some (.full st') → a = b) ∧
+    (∀ a p uri st, aget s.slots a = some (.live p uri st) → InMem.isInUse (aget s.nodes (p, uri)) = true) := by
+  have h := InMem.hinv_run ops InMem.init InMem.hinv_init
+  exact ⟨h.u, h.j2, h.j3, h.j1⟩
+
+example : aget (InMem.run InMem.init [.opn 0 0 [47, 97], .opn 1 0 [47, 97], .opn 2 0 [47, 98], .drp 0, .poll 1]).slots 1 =
+    some (.live 0 [47, 97] {}) := by decide
+
+/-- Not proved (statement only): with the FC13a fix no state is ever lost — an entry marked in use always has a
+holder (a running instance, or a pending open that owns the handed-over state). Checked on all choreographies of three
+handles up to depth 6 and on the random traces instead. -/
+def C13_inmem_state_never_lost_open : Prop :=
+  ∀ (ops : List Op) (p : Nat) (uri : Bytes),
+    InMem.isInUse (aget (InMem.run InMem.init ops).nodes (p, uri)) = true →
+    (∃ a st, aget (InMem.run InMem.init ops).slots a = some (.live p uri st)) ∨
+    (∃ a c st, aget (InMem.run InMem.init ops).slots a = some (.waiting p uri c) ∧
+      aget (InMem.run InMem.init ops).chans c = some (.full st))
 
 /-- A pending open that already received the state and is then cancelled (dropped) returns the state to the plane:
 the next open completes at once with exactly that state (the code after the FC13a fix; before it the state was lost
